@@ -16,7 +16,8 @@ ASSUMPTIONS = ['reachability-closure oracle (O(n^3)) is correct',
                'CPython set iteration order is what varies visit order; '
                'covered by varying labels and insertion orders']
 FLOORS = {'sccs_calls': 1000, 'nontrivial': 100, 'protocol_builds': 500,
-          'shared_containers': 50}
+          'shared_containers': 50, 'abandoned_enumerations': 200,
+          'queries_after_growth': 200}
 BATCH_TIMEOUT = 900
 
 
@@ -254,8 +255,42 @@ def check_graph(DiGraph, labels, edges, order, mode, stats, viol, desc,
         if skip_sink_call and not adj[i]:
             continue
         g.add_neighbors(objs[i], [objs[j] for j in adj[i]] + extra)
-    comps, cyclic, cross = want_components(list(range(n)), edges)
     idx = {key(o): i for i, o in enumerate(objs)}
+    rounds = [list(edges)]
+    keep_alive = []
+    if proto is not None:
+        # the query side of the API: an enumeration that is begun and
+        # abandoned (next(g.sccs(), None), any(...), a break) before the
+        # complete ones, a generator that stays open meanwhile, and the graph
+        # growing between two complete queries
+        prng = random.Random(proto * 7 + 1)
+        if prng.random() < 0.5:
+            it = g.sccs(trivial=prng.random() < 0.5)
+            for _ in range(prng.randint(1, 2)):
+                if next(it, None) is None:
+                    break
+            if prng.random() < 0.5:
+                keep_alive.append(it)
+            del it
+            stats['abandoned_enumerations'] = \
+                stats.get('abandoned_enumerations', 0) + 1
+        if n and prng.random() < 0.5:
+            more = [(prng.randrange(n), prng.randrange(n))
+                    for _ in range(prng.randint(1, 2))]
+            rounds.append(list(edges) + more)
+    for rno, cur_edges in enumerate(rounds):
+        if rno:
+            for a, b in cur_edges[len(edges):]:
+                g.add_neighbors(objs[a], [objs[b]])
+            stats['queries_after_growth'] = \
+                stats.get('queries_after_growth', 0) + 1
+        _verify(g, n, cur_edges, objs, key, idx, stats, viol,
+                dict(desc, grown=bool(rno)), skip_sink_call)
+    del keep_alive[:]
+
+
+def _verify(g, n, edges, objs, key, idx, stats, viol, desc, skip_sink_call):
+    comps, cyclic, cross = want_components(list(range(n)), edges)
     for trivial in (False, True):
         stats['sccs_calls'] += 1
         try:
